@@ -100,7 +100,7 @@ func c17Extract(call ssa.Value, idx int) ssa.Value {
 
 func c17Go(m *c17Model) {
 	p := m.p
-	ru := m.r.Rule("C17.go", "cli.Main exits with 0 for a nil error, with ExitCode() of an interp.Exiter and with 1 otherwise; Interp.Main evaluates _main, returns the *gojq.HaltError it receives (value written to stderr), returns other errors, and returns nil only when the iterator is exhausted; *gojq.HaltError is an Exiter; halt value printing: nil nothing, Go string raw, otherwise JSON plus newline; the generic status 1 is used only for non-Exiter errors; an error received from _main always ends the run; JSON indent is 0 iff options.compact; the stream names stdin/stdout/stderr select the matching OS streams, which write to os.Stdout/os.Stderr", 29)
+	ru := m.r.Rule("C17.go", "cli.Main exits with 0 for a nil error, with ExitCode() of an interp.Exiter and with 1 otherwise; Interp.Main evaluates _main, returns the *gojq.HaltError it receives (value written to stderr), returns other errors, and returns nil only when the iterator is exhausted; *gojq.HaltError is an Exiter; halt value printing: nil nothing, Go string raw, otherwise JSON plus newline; the generic status 1 is used only for non-Exiter errors; an error received from _main always ends the run; JSON indent is 0 iff options.compact; the stream names stdin/stdout/stderr select the matching OS streams, which write to os.Stdout/os.Stderr; _stdioWrite writes the value once, verbatim, never as a printf format", 31)
 
 	exiter := p.NamedType("pkg/interp", "Exiter")
 	mainM := p.Fn("(*pkg/interp.Interp).Main")
@@ -356,6 +356,7 @@ func c17Go(m *c17Model) {
 	ru.Check(toStderr >= 1, "Interp.Main:halt-stderr", pos, "halt value written to stderr", "the value of a halt_error (error: ... messages) is no longer written to stderr")
 	c17HaltPrint(ru, p)
 	c17GoMore(m, ru)
+	c17StdioWrite(m, ru)
 }
 
 // ---------------------------------------------------------------------------
